@@ -63,6 +63,14 @@ def null_glue(env, m, n, side, via='quat_null_space'):
     A = env.qarr('a', (m, n))
     if not env.symbolic:
         import numpy as np
+        # the matrix of this model: diag(|s|) padded (so the modelled singular values are the real ones), plus the generic A
+        sv_m = sorted([abs(float(env.real('s_%d' % i))) for i in range(min(m, n))], reverse=True)
+        rt_m = abs(float(env.real('rtol'))) or 1e-10
+        D = cm.qmat_from_nested(env, [[[sv_m[i] if i == j else 0.0, 0, 0, 0] for j in range(n)] for i in range(m)])
+        if sv_m and sv_m[0] > 0 and 0 < rt_m < 1 and all(abs(x - rt_m * sv_m[0]) > 1e-3 * rt_m * sv_m[0] for x in sv_m):
+            Nd = Ut.quat_null_space(D, side=side, rtol=rt_m)
+            rd = sum(1 for x in sv_m if x > rt_m * sv_m[0])
+            env.holds('diag(s) model: null-space basis has dim - r columns with r = #{s_i > rtol s_1}', Nd.shape[1] == (n if side == 'right' else m) - rd)
         N = Ut.quat_null_space(A, side=side)
         dim = n if side == 'right' else m
         env.holds('null space has the right number of rows', N.shape[0] == dim)
